@@ -8,7 +8,7 @@ adjacencies — links between the nodes on any sides, circular self-links, left 
 per node and each adjacency exactly once with correct orientation characters and a K-1 overlap, for both write_gfa and
 to_gfa_with_tags. Persistence: Serialize/Deserialize are derived for all nine persisted types and the derived serializer
 writes every declared field."""
-from .. import dt_export
+from .. import dt_export, lemmas
 
 ASSUMPTIONS = ["value equality after a serde round trip is serde's contract for derived impls (trusted)", "keys of the caller-supplied `rest` object are quote/backslash-free (they are interpolated unescaped)",
                "adjacencies between distinct nodes are reported from both ends (symmetry clause of C03)",
@@ -20,3 +20,6 @@ def run(F, rep):
     rep.run(dt_export.json_tables, F, rep, "C20.1")
     rep.run(dt_export.gfa_tables, F, rep, "C20.2")
     rep.run(dt_export.serde_rules, F, rep, "C20.4")
+    # "lists every node once with its sequence": the S line carries to_dna_string() of the node's view into the packed store — exact for
+    # views at every kind of offset (the export tables above take the rendered text as given)
+    rep.run(lemmas.slice_exact_lemmas, F, rep, "C20.5", quick=True, only={"to_dna_string"})
